@@ -37,7 +37,8 @@ def _spec(module):
                   'bad_BND3_handback', 'good_handback', 'h_place', 'bad_BND3_place_call', 'good_place_call', 'use_handback']
         return [{
             'units': {'cJSON.c': 'parse_bad.c', 'cJSON_Utils.c': 'utils_min.c'},
-            'rules': [bnd.bnd_parse, parse.c10_structure, parse.bnd6, tab.tab13, parse.num2, parse.num3,
+            'rules': [bnd.bnd_parse, parse.c10_structure, parse.bnd6, tab.tab13, parse.num2, parse.num3, parse.tab22,
+                      lambda units, R: parse.tab22(units, R, 'bad_TAB22_signed_skip'), lambda units, R: parse.tab22(units, R, 'good_unsigned_skip'),
                       lambda units, R: parse.tab1(units, R, claim=('pv_bad', 'pv_good', 'pv_skip'))],
         }, {
             'units': {'cJSON.c': 'string_bad.c', 'cJSON_Utils.c': 'utils_min.c'},
